@@ -11,14 +11,16 @@ import xarray as xr
 from sv import core
 
 PROPERTY = "C06"
-GEN = []
-PROPS = ["ScoresVerif/Props/C06.lean", "ScoresVerif/Props/C06Bridge.lean", "ScoresVerif/Props/C06Tw.lean",
+GEN = ["CrpsEns"]
+PROPS = ["ScoresVerif/Props/C06Gen.lean", "ScoresVerif/Props/C06.lean", "ScoresVerif/Props/C06Bridge.lean", "ScoresVerif/Props/C06Tw.lean",
          "ScoresVerif/Props/C06TwBridge.lean"]
-DRIVER_DEPS = ["ScoresVerif.Driver.C06"]
+DRIVER_DEPS = ["ScoresVerif.Driver.C06", "ScoresVerif.Driver.C06Gen"]
 AUDIT_FILES = ["ScoresVerif/Lemmas/Bridge.lean", "ScoresVerif/Lemmas/CrpsEns.lean", "ScoresVerif/Lemmas/CrpsEnsBrier.lean", "ScoresVerif/Lemmas/CrpsEnsC06Tw.lean", "ScoresVerif/Lemmas/C06TwBridge.lean", "ScoresVerif/Model/CrpsEns.lean", "ScoresVerif/Spec/CrpsEns.lean"]
 LEVEL = "proof"
-TRUSTED = ["hand-written model Model/CrpsEns.lean of crps_for_ensemble / tw variants / brier per-case formula "
-           "(tied by differential correspondence only, no translator)",
+TRUSTED = ["row translator tools/py2lean_row.py + tools/gen/CrpsEns.py: crps_for_ensemble (per case), its component block, the tail / interval "
+           "chaining functions and the tw call sites are regenerated from the source on every run; Props/C06Gen.lean proves regenerated = "
+           "Model/CrpsEns.lean, and the regenerated code is also run against the real function; the brier per-case formula stays a hand "
+           "model tied by correspondence (its kernel is translated under C13)",
            "(no longer trusted) the step integral equals Mathlib's Lebesgue interval integral: Props/C06Bridge.lean crpsEns_ecdf_eq_lebesgue, "
            "crpsEns_fair_eq_lebesgue, brier_lebesgue_eq_crps_lebesgue"]
 ASSUMPTIONS = ["inputs are dyadic (k/4, |k|<=64) so float + - x and comparisons are exact; quotients compared to 1e-9",
@@ -264,9 +266,56 @@ def describe(call):
 
 
 # ----------------------------------------------------------------------------- tie X
+# ----------------------------------------------------------------------------- tie T validated: regenerated code vs implementation
+def check_gen(ctx, calls):
+    """the Lean code REGENERATED from crps_for_ensemble / the tw wrappers (Gen/CrpsEns.lean, row translator) is run case by case on
+    the same ensembles as the real functions (include_components=True, preserve all) — a translator error shows up here, a source
+    change shows up in the theorems of Props/C06Gen.lean."""
+    ops, metas = [], []
+    for call in calls:
+        if call["fn"] not in ("plain", "upper", "lower", "interval") or call.get("malformed"):
+            continue
+        c2 = dict(call, components=True, weights=None, reduce="cases", preserve_spelling="all")
+        res = run_impl(c2)
+        if "err" in res:
+            continue
+        n = len(call["members"])
+        for k in range(n):
+            kind = call["fn"]
+            if kind in ("upper", "lower") and call.get("tail", kind) != kind:
+                kind = call["tail"]
+            args = {"xs": [core.fl_str(v) for v in call["members"][k]], "y": core.fl_str(call["obs"][k]), "method": call["method"], "kind": kind}
+            if kind in ("upper", "lower"):
+                args["t"] = core.fl_str(per_case(call["t"], k, n))
+            if kind == "interval":
+                args["a"] = core.fl_str(per_case(call["a"], k, n)); args["b"] = core.fl_str(per_case(call["b"], k, n))
+            ops.append({"op": "c06.gen_case", "args": args})
+            metas.append((call, k, {c: res[c][k] for c in COMPS}))
+    if not ops:
+        return
+    try:
+        out = core.run_driver("C06Gen", ops)
+    except Exception as ex:   # the regenerated module does not build / run: an obligation, not a violation by itself
+        ctx.fail("gen-vs-impl", "correspondence", "crps_for_ensemble", "gen-driver", {"error": str(ex)[-400:]}, observed="driver failed",
+                 expected="regenerated code runs", tags={"site": "crps_for_ensemble"}, theorem="gen_components_eq_model")
+        return
+    for (call, k, impl), m in zip(metas, out):
+        desc = {"fn": call["fn"], "method": call["method"], "members": call["members"][k], "obs": call["obs"][k],
+                "t": call.get("t"), "a": call.get("a"), "b": call.get("b")}
+        ctx.case("gen-vs-impl", desc)
+        bad = [c for c in COMPS if not core.close(impl[c], core.parse_fl(m[COMP_LABEL[c]]))]
+        if not core.close(impl["total"], core.parse_fl(m["total_only"])):
+            bad.append("total(include_components=False)")
+        if bad:
+            ctx.fail("gen-vs-impl", "correspondence", "crps_for_ensemble:" + call["fn"], "gen-value", desc,
+                     observed={c: impl.get(c) for c in COMPS}, expected={c: m[COMP_LABEL[c]] for c in COMPS},
+                     tags={"fn": call["fn"], "method": call["method"], "components": bad}, theorem="gen_components_eq_model")
+
+
 def correspondence(ctx):
     rng = ctx.rng
     calls = [gen_call(rng) for _ in range(ctx.n(500, 12000))]
+    check_gen(ctx, calls[:ctx.n(150, 2000)])
     # malformed stream: bad method / bad tail (documented ValueError)
     mal = []
     for _ in range(ctx.n(20, 200)):
